@@ -1,6 +1,8 @@
 """C18 - decoding follows the documented lifecycle and builds exactly what is listed."""
 from __future__ import annotations
 
+import ast
+
 from fractions import Fraction
 
 from sa.report import Cx
@@ -208,6 +210,20 @@ def run(cx: Cx):
                     viol('R-ORDER', 'agent_index-set-to-the-loop-index-before-creation',
                          f"each agent must be created after params['agent_index'] was set to its index {idx!r} (found {got!r})", it_ev.line)
                 _inject(cx, viol, evs, a0, ca[0], Sub(R, Const('params')), model, 'create:agent', inj_seen)
+        # --- the scheduler / environment a registration goes to is the model's current one: a reference taken before a
+        # hook ran is stale when the hook installs a new environment (hooks receive the model for exactly such set-up)
+        for role, i, e in seq:
+            if not role.startswith('register:'):
+                continue
+            j = _receiver_read_at(evs, i, e)
+            if j is None:
+                continue
+            crossed = [r for r, k, _ in seq if j < k < i and r.startswith('hook:')]
+            if crossed:
+                viol('R-ORDER', f"{role.replace(':', '-')}-receiver-read-after-the-hooks",
+                     f"{role}: the receiver of the registering call was read from the model at line {evs[j].line}, before the "
+                     f"{crossed[0][5:]} hook ran; a hook that installs a new environment/scheduler leaves the remaining entries in the "
+                     f"discarded one", e.line)
         # return
         if p.last.data.get('value') != model:
             viol('R-ORDER', 'returns-the-decoded-model', f"decode() returns {p.last.data.get('value')!r}, not the model it created", p.last.line)
@@ -222,6 +238,24 @@ def run(cx: Cx):
         cx.ok('R-ORDER', 'decode(): documented lifecycle order on every CFG path, hooks guarded by their own keys, model injected into the '
               'six system/agent-level roles, agent_index = 0..n-1', where=cx.where(fn), function=fn.qualname, paths=len(paths),
               roles=sorted(roles_seen), injections=sorted(inj_seen))
+
+
+def _receiver_read_at(evs, i, e):
+    """Index of the assignment event at which the receiver of the call event evs[i] was read from the model, when the call
+    goes through a local alias (`env = model.environment; ...; env.add_agent(x)`); None when it is read at the call."""
+    f = getattr(e.node, 'func', None)
+    recv = f.value if isinstance(f, ast.Attribute) else None
+    hi = i
+    found = None
+    while isinstance(recv, ast.Name):
+        asg = [k for k in range(hi) if evs[k].kind == 'assign' and evs[k].data.get('name') == recv.id]
+        if not asg:
+            break
+        found = hi = asg[-1]
+        recv = getattr(evs[hi].node, 'value', None)
+        if not isinstance(evs[hi].node, ast.Assign) or len(evs[hi].node.targets) != 1:
+            break
+    return found
 
 
 def _inject(cx, viol, evs, lo, hi, target, model, role, seen):
